@@ -290,7 +290,7 @@ CHECKS["C07"] = dict(
           "makeFeasible()+run(), runOnce()xk and ConstrainedMajorizationLayout::run(); overlap avoidance and neighbour stress on/off. Every constraint is re-evaluated by an independent "
           "evaluator on the final rectangle centres; it is excused only if an UnsatisfiableConstraintInfo naming that compound constraint was delivered. "
           "non-trivial = some constraint is violated by the initial placement"),
-    workloads=[dict(harness="c07_cola", mode="constraints", quick=6000, thorough=250000, watchdog=60, san_thorough=3000)],
+    workloads=[dict(harness="c07_cola", mode="constraints", quick=20000, thorough=250000, watchdog=60, san_thorough=3000)],
     min_nontrivial=dict(quick=1500, thorough=30000),
     max_inconclusive=0.03,
     require_obs=["constraints_checked.separation", "constraints_checked.alignment", "constraints_checked.boundary", "constraints_checked.fixed-relative", "layouts_reporting_unsatisfiable"],
@@ -307,7 +307,7 @@ CHECKS["C08"] = dict(
     rule=("cases = graphs n 1..35 with heavy initial overlap (crowded, coincident, nested rectangles), overlap avoidance on, makeFeasible() then run(); optional exemption groups; "
           "optional hierarchy of rectangular clusters (1-3 clusters, nesting depth <=2, padding/margins) and user constraints derived from a non-overlapping witness placement. "
           "Judged only when nothing was reported unsatisfiable. non-trivial = at least one pair of rectangles overlaps initially"),
-    workloads=[dict(harness="c07_cola", mode="overlap", quick=4000, thorough=150000, watchdog=120, san_thorough=2000)],
+    workloads=[dict(harness="c07_cola", mode="overlap", quick=12000, thorough=150000, watchdog=120, san_thorough=2000)],
     min_nontrivial=dict(quick=1500, thorough=30000),
     max_inconclusive=0.03,
     require_obs=["pairs_checked", "sibling_cluster_pairs_checked", "node_vs_foreign_cluster_checked"],
@@ -317,4 +317,23 @@ MANIFEST_TEXT["C08"] = dict(
     technique="runtime monitor: pairwise rectangle-overlap and cluster-containment oracle on final positions of layouts with heavy initial overlap",
     text="After makeFeasible()+run() with overlap avoidance the harness checks every non-exempt pair of rectangles and, with cluster hierarchies, the member bounding boxes of sibling clusters and foreign nodes. Held on the executions observed.",
     note="Judged only when the layout reported nothing unsatisfiable, as the property states.",
+)
+
+CHECKS["C13"] = dict(
+    level="exploration",
+    rule=("cases = the pipeline of the library's own beautify test on random input: 3-12 non-overlapping rectangles (gap 1 or 4), a random connected graph plus extra edges, libavoid polyline "
+          "routes turned into topology::Edges with EdgePoints on the routes' (shape, corner) ids, ConstrainedFDLayout + ColaTopologyAddon for 5-120 iterations, optionally with locks "
+          "dragging nodes across the drawing and a resize. The monitor runs in the TestConvergence callback at EVERY iteration and once after run(). "
+          "non-trivial = the number of points of some edge path changed during the run (a bend was created or removed)"),
+    workloads=[dict(harness="c13_topology", mode="pipeline", quick=6000, thorough=250000, watchdog=120, san_thorough=3000)],
+    min_nontrivial=dict(quick=2000, thorough=40000),
+    max_inconclusive=0.08,
+    require_obs=["iterations_monitored", "edge_states_checked", "bends_checked", "side_signatures_checked", "cases_where_bends_were_created_or_removed"],
+    assumptions=["interior = rectangle shrunk by 1e-6 (paths legitimately run along node borders)",
+                 "side signature: parity of a ray from each foreign node centre against the closed curve path + vertical rays at both path ends; compared between consecutive iterations and judged only when neither path end passed the node's x in that step"],
+)
+MANIFEST_TEXT["C13"] = dict(
+    technique="online runtime monitor hooked on the layout's per-iteration callback: own segment/rectangle geometry, corner and convex-bend tests, step-wise side-signature comparison",
+    text="The monitor observes every intermediate state the layout passes through (tens of thousands of iterations per run) rather than only the result: no path segment may enter a foreign node's interior, rectangles may not overlap, path ends stay on their nodes, bends sit on corners and wrap their node, and no node may change side of an edge within a step. Held on the executions observed; libtopology's own debug assertions that fire on random input are reported under C15 (finding F12).",
+    note="Reads topology::Nodes / topology::Edges objects handed to ColaTopologyAddon (public members) inside the TestConvergence callback.",
 )
